@@ -36,6 +36,8 @@ inductive PyExc where
   | runtimeError | recursionError
   | lookupError | keyError | indexError
   | attributeError | assertionError | memoryError | overflowError | stopIteration
+  /-- `asyncio.InvalidStateError(Exception)`: `set_result` on a future that is already done -/
+  | invalidStateError
   -- aiorpcx.jsonrpc: CodeMessageError(Exception), RPCError / ProtocolError(CodeMessageError)
   | codeMessageError | rpcError | protocolError
   deriving DecidableEq, Repr, Inhabited
@@ -60,6 +62,7 @@ def base : PyExc → Option PyExc
   | memoryError => some exception
   | overflowError => some exception            -- via ArithmeticError
   | stopIteration => some exception
+  | invalidStateError => some exception
   | codeMessageError => some exception
   | rpcError => some codeMessageError
   | protocolError => some codeMessageError
@@ -83,14 +86,15 @@ def name : PyExc → String
   | attributeError => "AttributeError" | assertionError => "AssertionError"
   | memoryError => "MemoryError" | overflowError => "OverflowError"
   | stopIteration => "StopIteration"
+  | invalidStateError => "InvalidStateError"
   | codeMessageError => "CodeMessageError" | rpcError => "RPCError"
   | protocolError => "ProtocolError"
 
 def all : List PyExc :=
   [baseException, exception, typeError, valueError, unicodeDecodeError, jsonDecodeError,
    runtimeError, recursionError, lookupError, keyError, indexError, attributeError,
-   assertionError, memoryError, overflowError, stopIteration, codeMessageError, rpcError,
-   protocolError]
+   assertionError, memoryError, overflowError, stopIteration, invalidStateError, codeMessageError,
+   rpcError, protocolError]
 
 def ofName (s : String) : Option PyExc := all.find? (fun e => e.name == s)
 
@@ -350,7 +354,8 @@ def pySorted {α : Type} (key : α → J) (xs : List α) : Except PyExc (List α
     .ok (xs.mergeSort (fun a b => keyLe (key a) (key b)))
   else .error .typeError
 
-/-! ### Well-formed ("JSON-representable") values: unique dict keys, finite floats, strings
+/-! ### Well-formed ("JSON-representable") values: unique dict keys, finite floats in canonical
+form, strings
 whose surrogates are lone (`json.loads` joins an escaped high+low pair into one astral character,
 so a `str` holding the two code points separately does not survive `loads ∘ dumps`) -/
 
@@ -370,9 +375,29 @@ def uniqueKeys : List (Str × J) → Bool
   | [] => true
   | (k, _) :: r => !(J.hasKey k r) && uniqueKeys r
 
+/-- a finite IEEE-754 binary64 in canonical form: `m·2^e` with `m` odd (or `0·2^0`), at most 53
+significant bits, exponent in range (`5e-324 = 1·2^-1074`, `max = (2^53-1)·2^971`); `-0.0` has its
+own constructor.  Exactly the values `harness/jwire.py` produces for a Python float, so distinct
+well-formed `F` are distinct doubles (`fin 2 0` / `fin 1 1`, or `fin (2^60+1) 0`, are not
+well-formed). -/
+def F.wf : F → Bool
+  | .fin m e =>
+      (m % 2 != 0 || (m == 0 && e == 0)) && decide (-1074 ≤ e)
+        && decide (m.natAbs * 2 ^ (e - 971).toNat < 2 ^ 53)
+  | .negZero => true
+  | _ => false
+
+theorem F.wf_isFinite {f : F} (h : f.wf = true) : f.isFinite = true := by
+  cases f <;> simp_all [F.wf, F.isFinite]
+
+example : (F.fin 3 (-1)).wf = true := by decide
+example : (F.fin 1 (-1074)).wf = true ∧ (F.fin 1 1023).wf = true ∧ (F.fin (2 ^ 53 - 1) 971).wf = true := by decide
+example : (F.fin 2 0).wf = false ∧ (F.fin (2 ^ 60 + 1) 0).wf = false ∧ (F.fin 1 1024).wf = false
+    ∧ (F.fin 1 (-1075)).wf = false ∧ (F.fin 0 1).wf = false := by decide
+
 mutual
 def J.wf : J → Bool
-  | .float f => f.isFinite
+  | .float f => f.wf
   | .str s => strWf s
   | .arr xs => J.wfList xs
   | .obj kvs => uniqueKeys kvs && keysWf kvs && J.wfObj kvs
